@@ -19,7 +19,9 @@ function panicName(e) {
   if (/send on closed channel/.test(m)) return 'panic:send-closed';
   if (/close of closed channel/.test(m)) return 'panic:close-closed';
   if (/Cannot read properties of null \(reading 'zero'\)/.test(m)) return 'panic:nil-elem';
-  return null;
+  // anything else the runtime throws is an observation too (a changed runtime must show up as a
+  // disagreement with the model, never as a harness failure)
+  return 'jserror:' + m.replace(/[\s|]+/g, '_').slice(0, 80);
 }
 
 module.exports = function (repo, loadPrelude) {
@@ -199,9 +201,15 @@ module.exports = function (repo, loadPrelude) {
           }
         }
       }
-    } catch (e) { if (e !== STOP) throw e; }
-    if (H.stray.length) throw new Error('unexpected console.error: ' + H.stray[0]);
-    if (H.answers.length !== events.length) throw new Error('answered ' + H.answers.length + ' of ' + events.length);
+    } catch (e) {
+      if (e !== STOP) { // the runtime broke down in the middle of the script: the remaining events are answered with the error
+        const msg = 'jserror:' + String(e && e.message || e).replace(/[\s|]+/g, '_').slice(0, 80);
+        while (H.answers.length < events.length) H.answers.push(msg);
+      }
+    }
+    if (H.stray.length) H.answers[H.answers.length - 1] += ' stray-console-error';
+    while (H.answers.length < events.length) H.answers.push('jserror:no-answer');
+    H.answers.length = events.length;
     return H.answers.join('|');
   }
 
